@@ -46,10 +46,22 @@ def node_of_field(t, field):
 def check_selectors(chk, rep, repo):
     seen = set()
     for kind, cls, m in WALKS:
+        check_walk_selectors(rep, repo, kind, cls, m, seen)
+    check_selector_forwarding(chk, rep, repo, seen)
+
+
+def check_walk_selectors(rep, repo, kind, cls, m, seen, pre=""):
+    """Every arc weight of one entry point is `matrix[a.idx][b.idx] if <the configured flag> else metric(a.features,
+    b.features)` for the same ordered pair of nodes (also used as a premise by the forest properties: the weights that
+    compete are the configured dissimilarity)."""
+    if True:
         w = model_walk(repo, cls, m) if kind == "model" else graph_walk(repo, cls, m)
         wts = weight_terms(w)
         if not wts:
             raise AnalysisError(f"{cls}.{m}: no arc-weight selector found (the rule would pass vacuously)")
+        if pre:
+            from .c03 import _Only
+            rep = _Only(rep, pre, None)
         for form, flag, pre, fn, ev in wts:
             key = (ev.fn.fq, ev.line, w.entry.fq)
             if key in seen:
@@ -78,7 +90,12 @@ def check_selectors(chk, rep, repo):
                     detail = (f"arms name different nodes: matrix ({show(na)[:50]}, {show(nb)[:50]}) vs metric "
                               f"({show(ma)[:50] if ma else '?'}, {show(mb)[:50] if mb else '?'})")
             rep.ev("SEL-pair", ev, ok, detail, construct=f"node pair of selector at {ev.fn.qual}: {ev.text()[:80]}")
+        if not isinstance(rep, Rep):
+            return
         run_kinds(rep, w, rules=("K2",))
+
+
+def check_selector_forwarding(chk, rep, repo, seen):
     chk.floor("arc-weight selector sites (per analysed entry point)", len(seen), 8)
     # argument positions at the calls into the KNN subgraph
     n_calls = 0
@@ -183,12 +200,21 @@ def _row_id_ok(fi, idx, feats, guards):
                     and feats[2][3] == (0,) and feats[2][1] == ("call", ("builtin", "enumerate"), (feats[1],), ()):
                 # `for i, row in enumerate(X)`: row is X[i]
                 feats = ("iterproj", feats[2][1], feats[2][2], (1,))
+            Xsrc = counter = None
             if idx is not None and feats is not None and feats[0] == "iterproj":
                 dom, lid = feats[1], feats[2]
-                counter = ("iterproj", dom, lid, (0,))
                 if dom[0] == "call" and dom[1] == ("builtin", "enumerate") and feats[3][:1] == (1,):
+                    counter = ("iterproj", dom, lid, (0,))
                     src = dom[2][0]
                     Xsrc = src[2][0] if src[0] == "call" and src[1] == ("builtin", "zip") else src
+            elif idx is not None and feats is not None and feats[0] == "idx" and feats[2][0] == "iter":
+                # `for i in range(len(X)): row = X[i]`
+                dom = feats[2][1]
+                sizes = (("call", ("builtin", "len"), (feats[1],), ()), ("idx", ("attr", feats[1], "shape"), ("const", 0)))
+                if dom[0] == "call" and dom[1] == ("builtin", "range") and len(dom[2]) == 1 and not dom[3] and dom[2][0] in sizes:
+                    Xsrc, counter = feats[1], feats[2]
+            if Xsrc is not None:
+                if True:
                     if Xsrc[0] == "param" and Xsrc[1].startswith("X"):
                         Ip = ("param", "I" + Xsrc[1][1:])
                         given = ("cmp", "is not", Ip, ("const", None))
